@@ -19,8 +19,18 @@ import (
 	"golang.org/x/tools/go/ssa/ssautil"
 )
 
-const repoDir = "/repo"
-const verifDir = "/verif"
+// repoDir / verifDir: the registered checks always use /repo and /verif. VERIF_REPO and VERIF_OUT exist only for
+// experiments (seeded-change matrix in a scratch worktree); with VERIF_OUT set, evidence and counterexamples go there.
+var repoDir = envOr("VERIF_REPO", "/repo")
+var verifDir = "/verif"
+var outDir = envOr("VERIF_OUT", "/verif")
+
+func envOr(k, d string) string {
+	if v := os.Getenv(k); v != "" {
+		return v
+	}
+	return d
+}
 const modPath = "github.com/tellor-io/layer"
 
 type Obligation struct {
@@ -469,7 +479,7 @@ func cmdCheck(args []string) int {
 		if o.Property != prop {
 			continue
 		}
-		if only != "" && o.Name != only && o.Harness != only {
+		if only != "" && o.Name != only && o.Harness != only && !strings.HasPrefix(o.Name, only+"-") {
 			continue
 		}
 		if o.Tier == "thorough" && tier == 0 {
@@ -630,7 +640,7 @@ func report(prop, tier string, seed int64, results []*OblResult, knownAll map[st
 	knownPrinted := map[string]bool{}
 	engineErr := false
 	violations := 0
-	os.MkdirAll(filepath.Join(verifDir, "cex", prop), 0o755)
+	os.MkdirAll(filepath.Join(outDir, "cex", prop), 0o755)
 	for _, r := range results {
 		totalPaths += r.Paths
 		totalInstrs += r.Instrs
@@ -691,7 +701,7 @@ func report(prop, tier string, seed int64, results []*OblResult, knownAll map[st
 		for _, v := range r.Confirmed {
 			violations++
 			exit = 1
-			p := filepath.Join(verifDir, "cex", prop, fmt.Sprintf("%s-%s.json", r.Ob.Name, hashStr(v.Label+fmt.Sprint(v.Model, v.Picks))))
+			p := filepath.Join(outDir, "cex", prop, fmt.Sprintf("%s-%s.json", r.Ob.Name, hashStr(v.Label+fmt.Sprint(v.Model, v.Picks))))
 			b, _ := json.MarshalIndent(map[string]interface{}{"property": prop, "obligation": r.Ob.Name, "harness": r.Ob.Harness, "pkg": r.Ob.Pkg, "violation": v}, "", " ")
 			os.WriteFile(p, b, 0o644)
 			lines = append(lines, fmt.Sprintf("VIOLATION property=%s replay=%s", prop, p))
@@ -772,8 +782,8 @@ func report(prop, tier string, seed int64, results []*OblResult, knownAll map[st
 		"assumptions": assumptions, "wall_s": round2(wall), "violations": violations,
 	}
 	b, _ := json.MarshalIndent(ev, "", " ")
-	os.MkdirAll(filepath.Join(verifDir, "evidence"), 0o755)
-	if err := os.WriteFile(filepath.Join(verifDir, "evidence", prop+".json"), b, 0o644); err != nil {
+	os.MkdirAll(filepath.Join(outDir, "evidence"), 0o755)
+	if err := os.WriteFile(filepath.Join(outDir, "evidence", prop+".json"), b, 0o644); err != nil {
 		fmt.Fprintln(os.Stderr, "ERROR writing evidence:", err)
 		return 2
 	}
